@@ -176,7 +176,14 @@ func runNumbers(o *hx.Opts, res *hx.Result, r *hx.Rand) {
 
 	n := o.Count(1500, 60000)
 	gr := r.Fork("decimals")
+	baseEnv := env
 	for i := 0; i < len(numCorpus)+n; i++ {
+		// the environment's number format varies: canonical text, ToXNumber and "=" must not depend on it
+		env := baseEnv
+		if nf := numberFormats[i%len(numberFormats)]; i%2 == 1 {
+			env = envs.NewBuilder().WithNumberFormat(nf).Build()
+			res.Dist("num:numfmt:" + numFmtName(nf))
+		}
 		var d dnum
 		if i < len(numCorpus) {
 			d = numCorpus[i]
